@@ -38,6 +38,7 @@ static int hv_get_nb_vp(void) { return hv_nbvp; }
 #include "hcommon.h"
 #include <setjmp.h>
 #include <signal.h>
+#include <pthread.h>
 #include <sys/time.h>
 #include <mpi.h>
 
@@ -45,16 +46,38 @@ static int hv_get_nb_vp(void) { return hv_nbvp; }
 #define FAKE_BASE ((char *)0x40000000)
 #define ELT 8 /* PARSEC_MATRIX_DOUBLE */
 
-/* ---- watchdog: a loop of the code under test that does not terminate ---- */
+/* ---- watchdog: a loop of the code under test that does not terminate ----
+ * The limit is CPU time of THIS thread (CLOCK_THREAD_CPUTIME_ID), not wall time: a
+ * loaded machine can stall the process for seconds without the code under test
+ * having run.  A periodic wall-clock tick only wakes the handler up, which then
+ * compares the CPU time consumed since hv_arm with the limit.  SIGALRM is blocked
+ * while MPI / PaRSEC start (their threads inherit the mask) and unblocked in the
+ * main thread only, so the handler and its siglongjmp run on the main thread.
+ * A hang of the vector init is believed only when it is confirmed: the same init
+ * is run a second time with a limit ten times larger. */
+#include <time.h>
 static sigjmp_buf hv_jmp;
 static volatile int hv_armed;
-static void hv_alarm(int s) { (void)s; if (hv_armed) { hv_armed = 0; siglongjmp(hv_jmp, 1); } }
+static volatile long long hv_start_ns, hv_limit_ns;
+static long long hv_cpu_ns(void) {
+    struct timespec ts; clock_gettime(CLOCK_THREAD_CPUTIME_ID, &ts);
+    return (long long)ts.tv_sec * 1000000000LL + ts.tv_nsec;
+}
+static void hv_alarm(int s) {
+    (void)s;
+    if (!hv_armed) return;
+    if (hv_cpu_ns() - hv_start_ns < hv_limit_ns) return;   /* not enough CPU consumed: keep going */
+    hv_armed = 0;
+    struct itimerval off = { {0, 0}, {0, 0} }; setitimer(ITIMER_REAL, &off, NULL);
+    siglongjmp(hv_jmp, 1);
+}
 /* a crash of the code under test (mutated sources): report it, keep the remaining cases */
 static sigjmp_buf hv_crash_jmp;
 static volatile int hv_crash_ok;
 static void hv_crash(int s) { if (hv_crash_ok) { hv_crash_ok = 0; siglongjmp(hv_crash_jmp, s); } _exit(70); }
-static void hv_arm(int ms) {
-    struct itimerval it = { {0, 0}, { ms / 1000, (ms % 1000) * 1000 } };
+static void hv_arm(int cpu_ms) {
+    struct itimerval it = { {0, 20000}, {0, 20000} };      /* wake-up tick, 20 ms of wall time */
+    hv_start_ns = hv_cpu_ns(); hv_limit_ns = (long long)cpu_ms * 1000000LL;
     hv_armed = 1; setitimer(ITIMER_REAL, &it, NULL);
 }
 static void hv_disarm(void) {
@@ -204,8 +227,11 @@ static void do_vec(long *v) {
     static parsec_vector_two_dim_cyclic_t dcs[MAXR]; static pmap_t pm[MAXR];
     volatile int ninit = 0, hung = -1;
     for (volatile int r = 0; r < nodes; r++) {
-        if (sigsetjmp(hv_jmp, 1)) { hung = r; break; }
-        hv_arm(150);
+        volatile int attempt = 0;
+        /* first expiry (50 ms of CPU): not believed, run the init again with 500 ms of CPU */
+        if (sigsetjmp(hv_jmp, 1)) { if (attempt >= 2) { hung = r; break; } }
+        attempt++;
+        hv_arm(attempt == 1 ? 50 : 500);
         parsec_vector_two_dim_cyclic_init(&dcs[r], PARSEC_MATRIX_DOUBLE,
                                           (enum parsec_vector_two_dim_cyclic_distrib_t)distrib, r, mb, lm, i, m, P, Q);
         hv_disarm();
@@ -353,11 +379,14 @@ static void do_band(long *v) {
 #define MAXT 20000
 int main(int argc, char **argv) {
     FILE *f = hc_open(argc, argv); char *l;
+    sigset_t alrm; sigemptyset(&alrm); sigaddset(&alrm, SIGALRM);
+    pthread_sigmask(SIG_BLOCK, &alrm, NULL);               /* inherited by the threads MPI / PaRSEC create */
     int prov; MPI_Init_thread(&argc, &argv, MPI_THREAD_SERIALIZED, &prov);
     int pargc = 0; char **pargv = NULL;
     parsec_context_t *ctx = parsec_init(1, &pargc, &pargv);
     if (!ctx) { fprintf(stderr, "parsec_init failed\n"); return 3; }
     struct sigaction sa; memset(&sa, 0, sizeof sa); sa.sa_handler = hv_alarm; sigaction(SIGALRM, &sa, NULL);
+    pthread_sigmask(SIG_UNBLOCK, &alrm, NULL);             /* main thread only */
     sa.sa_handler = hv_crash; sigaction(SIGSEGV, &sa, NULL); sigaction(SIGBUS, &sa, NULL); sigaction(SIGFPE, &sa, NULL);
     static long v[32], ranks[MAXT], vpids[MAXT];
     while ((l = hc_next(f))) {
@@ -374,15 +403,15 @@ int main(int argc, char **argv) {
         if (strcmp(kind, "vec") && sigsetjmp(hv_jmp, 1)) {
             hv_crash_ok = 0; printf("<timeout>\n"); fflush(stdout); continue;
         }
-        if (!strcmp(kind, "bc") && k == 16) { hv_arm(5000); do_bc(v, 0); hv_disarm(); }
-        else if (!strcmp(kind, "kv") && k == 16) { hv_arm(5000); do_bc(v, 1); hv_disarm(); }
-        else if (!strcmp(kind, "sym") && k == 12) { hv_arm(5000); do_sym(v); hv_disarm(); }
+        if (!strcmp(kind, "bc") && k == 16) { hv_arm(20000); do_bc(v, 0); hv_disarm(); }
+        else if (!strcmp(kind, "kv") && k == 16) { hv_arm(20000); do_bc(v, 1); hv_disarm(); }
+        else if (!strcmp(kind, "sym") && k == 12) { hv_arm(20000); do_sym(v); hv_disarm(); }
         else if (!strcmp(kind, "vec") && k == 8) do_vec(v);
         else if (!strcmp(kind, "tab") && k == 10) {
             int nr = hc_ints(&p, ranks, MAXT), nv = hc_ints(&p, vpids, MAXT);
-            hv_arm(5000); do_tab(v, ranks, nr, vpids, nv); hv_disarm();
+            hv_arm(20000); do_tab(v, ranks, nr, vpids, nv); hv_disarm();
         }
-        else if (!strcmp(kind, "band") && k == 16) { hv_arm(5000); do_band(v); hv_disarm(); }
+        else if (!strcmp(kind, "band") && k == 16) { hv_arm(20000); do_band(v); hv_disarm(); }
         else oput("<bad case>");
         (void)done; hv_crash_ok = 0;
         printf("%s\n", ob ? ob : "");
